@@ -93,7 +93,45 @@ fn files(tier: Tier) -> Vec<(String, Vec<u8>)> {
     for &a in &halpha {
         mutate::hostile_each(&[a], 2, true, &mut |m| out.push((m.what.clone(), m.bytes.clone())));
     }
+    // output sizes: a last line (and a whole text) on both sides of every buffer size a writer could have
+    for n in [1usize, 500, 1000, 1020, 1023, 1024, 1025, 2048, 4095, 4096, 4097, 8191, 8192, 8193, 65535, 65536, 70000, 262_000] {
+        let long: String = (0..n).map(|i| (b'a' + (i % 26) as u8) as char).collect();
+        for (what, inst) in [
+            ("string", Inst::new("String", None, Some(1), vec![Arg::Str(long.clone())])),
+            ("struct", Inst::new("TypeStruct", None, Some(1), (0..(n / 4).min(65000) as u32).map(|k| Arg::IdRef(2 + k)).collect())),
+        ] {
+            let mut w = model::header(0x0001_0300, 0, 50);
+            w.extend(enc(&Inst::new("Capability", None, None, vec![Arg::Enum("Capability", 1)])));
+            w.extend(enc(&inst));
+            out.push((format!("long-last-line:{}:{}", what, n), model::words_to_bytes(&w)));
+            // the same module cut inside that instruction: a long error path is one line too
+            let b = model::words_to_bytes(&w);
+            out.push((format!("long-last-line-cut:{}:{}", what, n), b[..b.len() - 3].to_vec()));
+        }
+    }
+    for n in [100usize, 3000, 20000] {
+        let mut w = model::header(0x0001_0300, 0, 50);
+        for i in valid_function(n) {
+            w.extend(enc(&i));
+        }
+        out.push((format!("many-lines:{}", n), model::words_to_bytes(&w)));
+    }
     out
+}
+
+fn valid_function(nops: usize) -> Vec<Inst> {
+    let mut v = vec![
+        Inst::new("TypeVoid", None, Some(2), vec![]),
+        Inst::new("TypeFunction", None, Some(6), vec![Arg::IdRef(2)]),
+        Inst::new("Function", Some(2), Some(5), vec![Arg::Mask("FunctionControl", 0), Arg::IdRef(6)]),
+        Inst::new("Label", None, Some(7), vec![]),
+    ];
+    for _ in 0..nops {
+        v.push(Inst::new("Nop", None, None, vec![]));
+    }
+    v.push(Inst::new("Return", None, None, vec![]));
+    v.push(Inst::new("FunctionEnd", None, None, vec![]));
+    v
 }
 
 pub fn run(tier: Tier) -> Run {
@@ -106,7 +144,40 @@ pub fn run(tier: Tier) -> Run {
         run.set("samples", json!(["n/a"]));
         return run;
     };
-    let fs = files(tier);
+    let mut fs = files(tier);
+    // ---- the WHOLE C03 corruption universe in-process first (one process per file is too slow for all of it): every
+    //      file on which the library panics in-process is handed to the real tool as well, so that no panic the tool
+    //      inherits from the parser or disassembler is lost to the striding
+    {
+        let found: std::sync::Mutex<Vec<(String, Vec<u8>)>> = std::sync::Mutex::new(vec![]);
+        let sw = c03::sweep(tier, &|id, m| {
+            let r = guarded(|| match rspirv::dr::load_bytes(&m.bytes) {
+                Ok(md) => {
+                    let _ = md.disassemble();
+                    true
+                }
+                Err(e) => {
+                    let _ = format!("{}", e);
+                    false
+                }
+            });
+            match r {
+                Ok(a) => (None, if a { "in-process:disassembly".into() } else { "in-process:error".into() }, a),
+                Err(_) => {
+                    let mut f = found.lock().unwrap();
+                    if f.len() < 64 {
+                        f.push((format!("in-process-panic|{}|{}", id, m.what), m.bytes.clone()));
+                    }
+                    (None, "in-process:panic".into(), false)
+                }
+            }
+        });
+        for (o, c) in &sw.outcomes {
+            run.outcome(o, *c);
+        }
+        run.set("in_process_prefilter", json!({"binaries": sw.evaluations, "handed_to_the_tool": found.lock().unwrap().len()}));
+        fs.extend(found.into_inner().unwrap());
+    }
     let dir = verif_root().join("harness").join("target").join("c20-files");
     let _ = std::fs::remove_dir_all(&dir);
     std::fs::create_dir_all(&dir).expect("scratch dir");
@@ -164,7 +235,7 @@ pub fn run(tier: Tier) -> Run {
     let distinct: std::collections::HashSet<&Vec<u8>> = fs.iter().map(|f| &f.1).collect();
     run.set("evaluations", json!(n));
     run.set("distinct_nontrivial", json!(distinct.len()));
-    run.set("rule", json!("files = the empty file, every prefix of a valid multi-section module, every unmodified seed of the C03 universe plus a strided selection of its corruptions (every corruption kind represented), every word over the 21 instruction classes up to length L in any order, and every hostile word string of length <= 2 (+1-3 trailing bytes); each file is written to disk and the real rspirv-dis binary built from /repo is run on it: exit status 0, stdout equal to the library's disassembly + newline or the Display of the loading error + newline (computed in-process), single-line error, no panic text on stderr. distinct_nontrivial = distinct file contents"));
+    run.set("rule", json!("files = the empty file, every prefix of a valid multi-section module, every unmodified seed of the C03 universe plus a strided selection of its corruptions (every corruption kind represented), every word over the 21 instruction classes up to length L in any order, and every hostile word string of length <= 2 (+1-3 trailing bytes), modules whose last line / whole text has a length on both sides of 1 KiB .. 256 KiB, and every binary of the whole C03 universe on which the library panics in-process (prefilter over all of it); each file is written to disk and the real rspirv-dis binary built from /repo is run on it: exit status 0, stdout equal to the library's disassembly + newline or the Display of the loading error + newline (computed in-process), single-line error, no panic text on stderr. distinct_nontrivial = distinct file contents"));
     run.set("exhaustive", json!(false));
     run.set("bounds", json!({"files": fs.len(), "selection": "strided (not the whole C03 universe: one process per file)"}));
     run.set("samples", json!(fs.iter().step_by(fs.len() / 5 + 1).map(|f| json!({"file": f.0, "bytes": hex(&f.1[..f.1.len().min(64)])})).collect::<Vec<_>>()));
